@@ -198,9 +198,16 @@ func execConc(ts []string) string {
 	}
 	var caller concCaller
 	var netClient *modbus.Client
+	// half of the programs run on a client with hooks installed (callbacks that take their time): whatever the library
+	// does around its callbacks, the exchange stays exclusive
+	var hooks modbus.ClientHooks
+	if variantOf(ts[2])%2 == 1 {
+		hooks = yieldingHooks{l}
+	}
 	switch kind {
 	case "t", "r":
 		conf := modbus.ClientConfig{
+			Hooks:       hooks,
 			ReadTimeout: 60 * time.Second,
 			DialContextFunc: func(ctx context.Context, address string) (net.Conn, error) {
 				if ctx.Value(concFirst{}) != nil {
@@ -219,7 +226,11 @@ func execConc(ts []string) string {
 		}
 		caller = netClient
 	case "s":
-		caller = modbus.NewSerialClient(serialPort{first}, modbus.WithSerialReadTimeout(60*time.Second))
+		opts := []modbus.SerialClientOptionFunc{modbus.WithSerialReadTimeout(60 * time.Second)}
+		if hooks != nil {
+			opts = append(opts, modbus.WithSerialHooks(hooks))
+		}
+		caller = modbus.NewSerialClient(serialPort{first}, opts...)
 	default:
 		return "BADOP"
 	}
@@ -340,6 +351,13 @@ func execConc(ts []string) string {
 }
 
 type concFirst struct{}
+
+// yieldingHooks are client hooks that give other goroutines a chance to run while a callback is in progress
+type yieldingHooks struct{ l *concLog }
+
+func (h yieldingHooks) BeforeWrite([]byte)               { h.l.yield() }
+func (h yieldingHooks) AfterEachRead([]byte, int, error) { h.l.yield() }
+func (h yieldingHooks) BeforeParse([]byte)               { h.l.yield() }
 
 type serialPort struct{ c *concConn }
 
